@@ -330,8 +330,9 @@ pub fn find_location<T: PartialEq<U>, U>(tokens: &[Rc<T>], rule_tokens: &[Rc<U>]
             target_token_index += 1;
         }
         else {
+            /* Restart right after the previous start, the failed attempt may contain the real beginning */
             rule_token_index    = 0;
-            target_token_index += 1;
+            target_token_index  = start_token_index + 1;
             start_token_index   = target_token_index;
         }
 
